@@ -112,6 +112,15 @@ func (w MIDIWriter) WriteTo(out io.Writer) (int64, error) {
 		}
 		var t smf.Track
 		w.set.Set().Get(i).Apply(&t)
+		// the length of a track chunk is a 32 bit field, smf.WriteTo cuts a
+		// longer one silently (every event: a delta time of at most 4 bytes and its message)
+		var size uint64
+		for _, ev := range t {
+			size += 4 + uint64(len(ev.Message))
+		}
+		if size > math.MaxUint32 {
+			return 0, errorx.Invalid("track[%d] exceeds %d bytes", i, uint32(math.MaxUint32))
+		}
 		if err := s.Add(t); err != nil {
 			return 0, err
 		}
